@@ -707,6 +707,26 @@ def reader_seeds(ctx):
             o.id
 
         out[f"loose {t.decode()}"] = ({"obj": raw}, "obj", read_loose)
+        name = packfmt.obj_id(t, body).hex()
+
+        def read_loose_through_store(dirp, name=name):
+            from dulwich.object_store import DiskObjectStore
+
+            od = os.path.join(dirp, "objects")
+            os.makedirs(os.path.join(od, name[:2]))
+            os.makedirs(os.path.join(od, "pack"))
+            os.makedirs(os.path.join(od, "info"))
+            shutil.copyfile(os.path.join(dirp, "obj"), os.path.join(od, name[:2], name[2:]))
+            store = DiskObjectStore(od)
+            try:
+                o = store[name.encode()]
+                if packfmt.obj_id(o.type_name, o.as_raw_string()).hex() != name:
+                    raise Inconsistent(f"store[{name!r}] returns a {o.type_name!r} that does not hash to that name")
+                tnum, raw2 = store.get_raw(name.encode())
+            finally:
+                store.close()
+
+        out[f"store(loose {t.decode()} damaged)"] = ({"obj": raw}, "obj", read_loose_through_store)
 
     # packed-refs
     from dulwich.refs import DiskRefsContainer
